@@ -35,7 +35,10 @@ Definition finish (O : oracles) (o : opts) (s : sess) (exc : bool) : fin :=
   if dirty s then set_cookie O o s exc else FNone.
 
 (* ------------------------------------------------------------------ requests and chains *)
-Inductive src := SNone | SLast | SText (c : text).
+(* what a request presents: no cookie / the cookie most recently set / an arbitrary byte string /
+   an ALTERED cookie: a text that differs from the cookie most recently set (an edit of it, or the same
+   payload signed with another secret / salt) -- the harness only uses SAltered for texts that differ *)
+Inductive src := SNone | SLast | SText (c : text) | SAltered (c : text).
 Record req := { rsrc : src; rt : Z; rops : list (op * Z); rexc : bool }.
 
 Inductive robs :=
@@ -44,7 +47,7 @@ Inductive robs :=
 | Obs (s0 : sess) (rs : list res) (s1 : sess) (f : fin).
 
 Definition present (last : option text) (s : src) : option text :=
-  match s with SNone => None | SLast => last | SText c => Some c end.
+  match s with SNone => None | SLast => last | SText c => Some c | SAltered c => Some c end.
 
 Definition run_req (O : oracles) (o : opts) (last : option text) (r : req) : robs :=
   match init O o (present last (rsrc r)) (rt r) with
@@ -129,7 +132,8 @@ Definition op_cls (p : op) (d : dict) : cls :=
 (* does the byte string carry a signature valid under the key? *)
 Definition valid_signed (O : oracles) (k c : text) : bool :=
   match unb64 O c with
-  | Some f => text_eqb (mac O k (skipn (ds O) f)) (firstn (ds O) f)
+  | Some f => negb (canonical_check && negb (text_eqb (b64 O f) c))
+              && text_eqb (mac O k (skipn (ds O) f)) (firstn (ds O) f)
   | None => false
   end.
 
@@ -193,6 +197,10 @@ Fixpoint spec_chain (O : oracles) (o : opts) (sv : option store) (live : bool) (
             else let '(ob, sv') := spec_req O o None r in
                  Some ob :: spec_chain O o (match sv' with Some x => Some x | None => sv end) true l'
         | SNone =>
+            let '(ob, sv') := spec_req O o None r in
+            Some ob :: spec_chain O o (match sv' with Some x => Some x | None => sv end) true l'
+        | SAltered _ =>
+            (* "a cookie that was altered in any way ... yields a new empty session": whatever the text *)
             let '(ob, sv') := spec_req O o None r in
             Some ob :: spec_chain O o (match sv' with Some x => Some x | None => sv end) true l'
         | SLast =>
@@ -259,6 +267,12 @@ Definition inv_on (O : oracles) (o : opts) (W : dict -> Prop) (last : option tex
   | Some c, Some v => c = cookie_of O o (store_sess v) /\ W (s_st v)
   | _, _ => False
   end.
+
+(* the clause "an altered cookie yields a new empty session" holds of the code only for altered texts the
+   signature check refuses; with the lenient base64 decoder an altered TEXT can decode to the very same bytes
+   (see the _refuted theorems), hence this premise of the chain theorems *)
+Definition chain_ok (O : oracles) (o : opts) (l : list req) : Prop :=
+  Forall (fun r => match rsrc r with SAltered c => valid_signed O (key o) c = false | _ => True end) l.
 
 Definition ok_at (ob : robs) (sp : option sobs) : Prop :=
   match sp with None => True | Some b => proj ob = Some b end.
@@ -542,32 +556,40 @@ Definition wf_op (p : op) : bool :=
 Definition wf_chain (l : list req) : Prop :=
   Forall (fun r => Forall (fun pt => wf_op (fst pt) = true) (rops r)) l.
 
+(* bytes_(c) (latin-1) ; c + '=' * (-len(c) % 4) ; base64.urlsafe_b64decode, i.e. binascii.a2b_base64 in its
+   default NON-STRICT mode after translating '-' '_' to '+' '/':  both alphabets are accepted, every other character
+   (also whitespace and bytes >= 128) is DISCARDED, '=' is ignored unless it completes a quantum (then everything after
+   it is ignored), and the data must not end inside a quantum.  None = UnicodeEncodeError / binascii.Error. *)
 Definition b64v (c : N) : option N :=
   if (65 <=? c)%N && (c <=? 90)%N then Some (c - 65)%N
   else if (97 <=? c)%N && (c <=? 122)%N then Some (c - 71)%N
   else if (48 <=? c)%N && (c <=? 57)%N then Some (c + 4)%N
-  else if (c =? 45)%N then Some 62%N else if (c =? 95)%N then Some 63%N else None.
-Fixpoint b64dec (l : text) : option (list N) :=
+  else if (c =? 45)%N || (c =? 43)%N then Some 62%N
+  else if (c =? 95)%N || (c =? 47)%N then Some 63%N else None.
+Definition ocons (b : N) (x : option (list N)) : option (list N) :=
+  match x with Some l => Some (b :: l) | None => None end.
+Fixpoint b64go (l : text) (qp left pads : N) : option (list N) :=
   match l with
-  | [] => Some []
-  | c0 :: c1 :: c2 :: c3 :: r =>
-      match b64v c0, b64v c1, b64v c2, b64v c3, b64dec r with
-      | Some s0, Some s1, Some s2, Some s3, Some x =>
-          Some ((s0 * 4 + s1 / 16) :: ((s1 mod 16) * 16 + s2 / 4) :: ((s2 mod 4) * 64 + s3) :: x)%N
-      | _, _, _, _, _ => None
-      end
-  | [c0; c1; c2] =>
-      match b64v c0, b64v c1, b64v c2 with
-      | Some s0, Some s1, Some s2 => Some [(s0 * 4 + s1 / 16); ((s1 mod 16) * 16 + s2 / 4)]%N
-      | _, _, _ => None
-      end
-  | [c0; c1] =>
-      match b64v c0, b64v c1 with
-      | Some s0, Some s1 => Some [(s0 * 4 + s1 / 16)%N]
-      | _, _ => None
-      end
-  | _ => None
+  | [] => if (qp =? 0)%N then Some [] else None
+  | c :: r =>
+      if (c =? 61)%N then
+        if (2 <=? qp)%N
+        then if (4 <=? qp + (pads + 1))%N then Some [] else b64go r qp left (pads + 1)%N
+        else b64go r qp left pads
+      else
+        match b64v c with
+        | None => b64go r qp left pads
+        | Some v =>
+            if (qp =? 0)%N then b64go r 1%N v 0%N
+            else if (qp =? 1)%N then ocons (left * 4 + v / 16)%N (b64go r 2%N (v mod 16)%N 0%N)
+            else if (qp =? 2)%N then ocons (left * 16 + v / 4)%N (b64go r 3%N (v mod 4)%N 0%N)
+            else ocons (left * 64 + v)%N (b64go r 0%N 0%N 0%N)
+        end
   end.
+Definition b64pad (n : nat) : text := repeat 61%N (Nat.modulo (4 - Nat.modulo n 4) 4).
+Definition b64dec (c : text) : option (list N) :=
+  if existsb (fun x => (256 <=? x)%N) c then None
+  else b64go (c ++ b64pad (length c)) 0%N 0%N 0%N.
 
 (* the real wire format: JSON + urlsafe base64 as written/read above; only the MAC stays abstract *)
 Definition real_O (macf : text -> text -> text) (n : nat) : oracles :=
@@ -649,7 +671,10 @@ Definition get_opt_at (v : val) : option (op * Z) :=
   match v with VL [p; VI t] => olet p := get_op p in Some (p, t) | _ => None end.
 
 Definition get_src (v : val) : option src :=
-  match v with VL [] => Some SNone | VL [VI _] => Some SLast | VL [VT c] => Some (SText c) | _ => None end.
+  match v with
+  | VL [] => Some SNone | VL [VI _] => Some SLast | VL [VT c] => Some (SText c)
+  | VL [VT c; VI _] => Some (SAltered c) | _ => None
+  end.
 
 Definition get_req (v : val) : option req :=
   match v with
@@ -687,7 +712,7 @@ Definition table_oracles (n : nat) (macs : list (text * (text * text)))
      ser := json_dumps;
      deser := fun b => match lookup_tab b dess with Some x => x | None => None end;
      b64 := b64enc;
-     unb64 := fun c => match lookup_tab c unbs with Some x => x | None => None end;
+     unb64 := b64dec;      (* the Gallina model of bytes_ + padding + base64.urlsafe_b64decode (lenient) *)
      ds := n |}.
 
 Definition put_tnum (t : tnum) : val := match t with TI z => VL [VI 2; VI z] | TF z => VL [VI 3; VI z] end.
